@@ -125,6 +125,10 @@ func ndString(name string, max int) string {
 // ndBytesEqual: content equality of two byte strings.
 func ndBytesEqual(a, b []byte) bool { return string(a) == string(b) }
 
+// ndPrefer: a soft preference for the counterexample models the solver returns (it never
+// changes a verdict: only WHICH satisfying assignment is reported and replayed).
+func ndPrefer(c bool) {}
+
 // ndConcrete: the same value; symbolically the path is split per feasible value (<= 64) so
 // that what depends on it (offsets, lengths) is concrete on each path.
 func ndConcrete(x int) int { return x }
@@ -133,6 +137,25 @@ func ndConcrete(x int) int { return x }
 // buf's backing store. Natively false: the harness overwrites the buffer instead and
 // compares what it can observe.
 func ndReaches(root interface{}, buf []byte) bool { return false }
+
+// ndFakeLenInts: a []int of length n. Symbolically n stays symbolic and the elements do not
+// exist (they must not be read: use with ndAtFirstLoop); natively the slice is 0..n-1.
+func ndFakeLenInts(n int) []int {
+	s := make([]int, n)
+	for i := range s {
+		s[i] = i
+	}
+	return s
+}
+
+// ndAtFirstLoop runs f. Symbolically, execution of the function named fn is CUT when it first
+// arrives at a loop header: the []byte value flowing into that loop is returned with
+// cut=true (what the function has produced "so far"). Natively f simply runs to completion
+// and (nil, false) is returned: the harness then inspects the complete result instead.
+func ndAtFirstLoop(fn string, f func()) (sofar []byte, cut bool) {
+	f()
+	return nil, false
+}
 
 // ndCopyBytes: a fresh copy of b.
 func ndCopyBytes(b []byte) []byte { return append([]byte{}, b...) }
@@ -149,6 +172,14 @@ func ndAllocSince(mark uint64) uint64 {
 	var m runtime.MemStats
 	runtime.ReadMemStats(&m)
 	return m.TotalAlloc - mark
+}
+
+// verifSameBytes: a and b are the same byte string (length and content).
+func verifSameBytes(a, b []byte) bool {
+	if len(a) != len(b) {
+		return false
+	}
+	return ndBytesEqual(a, b)
 }
 
 // ndName builds an indexed variable name.
